@@ -150,6 +150,34 @@ def run(chk):
         _, sl, _ = vlib.run_pair(None, w, scases, timeout=3000)
         ndis += check_lines(chk, 'search', scases, sl, [None] * len(scases), classes, {})
         total += len(scases)
+    # --- compiled GDL-lite programs that insert heavily: the growth cap and the insert budget at work
+    from props import fontkit as K, cmapgen, c06
+    gdir = os.path.join(vlib.BUILD, 'fuzzfonts', 'c02g-%s-%d' % (chk.tier, chk.seed))
+    shutil.rmtree(gdir, ignore_errors=True); os.makedirs(gdir)
+    gbase = open(os.path.join(vlib.REPO, 'tests/fonts', c06.BASE), 'rb').read()
+    gcm = cmapgen.parse_font_cmap(os.path.join(vlib.REPO, 'tests/fonts', c06.BASE))
+    ga, gb = gcm[0x61], gcm[0x62]
+    gcases = []
+    for k in range(60 if thorough else 12):
+        npass = rng.choice((1, 2, 3, 4))
+        prog = []
+        for _ in range(npass):
+            kins = rng.choice((1, 2, 3, 5, 7, 15, 40))
+            rules = [dict(pre=0, pat=[{ga, gb}], acts=[[('I', rng.choice((ga, gb))) for _ in range(kins)]])]
+            if rng.random() < 0.4:
+                rules.append(dict(pre=0, pat=[{ga}, {gb}], acts=[[('D',)], [('I', ga), ('I', gb)]]))
+            prog.append(dict(maxloop=rng.choice((1, 5, 200)), rules=rules, alpha=[ga, gb]))
+        fp = os.path.join(gdir, 'g%d.ttf' % k)
+        open(fp, 'wb').write(K.build_font(gbase, prog))
+        for n in (1, 2, 5, 13, 40):
+            gcases.append(S.case_line('g%d.%d' % (k, n), fp, [rng.choice((0x61, 0x62)) for _ in range(n)], 32, ops=('dump', 'ltrace')))
+    _, gl_, _ = vlib.run_pair(None, w, gcases, timeout=2400)
+    gml, _, _ = vlib.run_pair(mexe, None, [l or 'x' for l in gl_], timeout=2400)
+    gstats = {}
+    ndis += check_lines(chk, 'growth', gcases, gl_, gml, classes, gstats)
+    total += len(gcases)
+    shutil.rmtree(gdir, ignore_errors=True)
+    chk.notes.append('inserting programs: %s' % sorted(gstats.items()))
     # --- mutated fonts that the real loader accepts
     fdir = os.path.join(vlib.BUILD, 'fuzzfonts', 'c02-%s-%d' % (chk.tier, chk.seed))
     shutil.rmtree(fdir, ignore_errors=True)
@@ -221,7 +249,7 @@ def run(chk):
     chk.cov.update(evaluations=total + n_vm, distinct_nontrivial=len(classes), disagreements_checked=ndis, distribution=dist,
                    rule='(a) shipped fonts x generated texts (3 encodings, dir 0..7, face options, ppm, ill-formed units), long repetitive texts, random feature values; (b) %d byte-mutated fonts '
                         '(Silf-weighted: 1-5 byte edits in Silf/Glat/Gloc/Feat/Sill/cmap/hmtx/maxp/head/name) x 3 texts, of which the real loader accepted those counted under segments/nullseg; '
-                        '(c) %d adversarial rule programs accepted by the real bytecode loader and run on real segments.  Every case: make, dump (all gr_seg_*/gr_slot_*/gr_cinfo_* queries), destroy under '
+                        '(b2) compiled GDL-lite programs of 1-4 passes inserting 1-40 slots per matched glyph on texts of 1-40 characters (growth up to the cap and the budget); (c) %d adversarial rule programs accepted by the real bytecode loader and run on real segments.  Every case: make, dump (all gr_seg_*/gr_slot_*/gr_cinfo_* queries), destroy under '
                         'ASan+UBSan+LSan with a watchdog; n_slots <= 64*n_chars; hook counter against maxRuleLoop*(slots+budget+2); loop/growth traces through the extracted acceptors; '
                         'non-trivial = distinct (family, font, size class, growth class, well-formedness verdict)' % (nf, n_vm),
                    samples=[cases[0][:200], mcases[0][:200]], exhaustive=False)
